@@ -235,6 +235,7 @@ def run_scenario(mod, sc: dict, keep: bool = False) -> Outcome:
     ARGFORM = sc.get("argform") or "int"
     if ARGFORM != "int":
         ctx.probe("integer-arguments-as-numpy-scalars")
+    knobs_restore = lower_tuning_constants(sc.get("knobs"), ctx)
     import signal
     import threading
 
@@ -314,12 +315,68 @@ def run_scenario(mod, sc: dict, keep: bool = False) -> Outcome:
         if armed:
             signal.setitimer(signal.ITIMER_REAL, 0)
             signal.signal(signal.SIGALRM, old_handler)
+        for modobj, name, value in knobs_restore:
+            setattr(modobj, name, value)
         try:
             os.chdir(_HOME_CWD)
         except OSError:
             pass
         ctx.close()
     return out
+
+
+def lower_tuning_constants(value, ctx) -> list:
+    """Size thresholds far above simulated sizes (a piece-wise path above 2^24 samples, a cap at 128 MiB per block, a
+    scratch limit) cannot be reached by making scenarios that large; the simulator moves the threshold instead.  A
+    tuning constant is recognised by convention: a module-level ALL-CAPS name of a pure-Python sigpyproc module bound to
+    a plain int >= 4096 (physical constants are floats; format limits such as 80-character strings are far smaller).
+    For the run, each is set to `value` (a few hundred: above every format limit, below the scenario's block sizes).
+    The pinned tree has no such constant, so this changes nothing there; the constants lowered are logged and named in
+    the class of a violation that needs them.  Returns what to restore."""
+    if not value:
+        return []
+    import sys as _sys
+
+    import types as _types
+
+    restore = []
+    mods = [(name, modobj) for name, modobj in sorted(_sys.modules.items())
+            if (name == "sigpyproc" or name.startswith("sigpyproc.")) and not name.endswith(".kernels") and modobj is not None]
+    originals = set()
+    for name, modobj in mods:
+        for k, v in sorted(vars(modobj).items()):
+            if k.isupper() and type(v) is int and v >= 4096:
+                restore.append((modobj, k, v))
+                originals.add(v)
+                setattr(modobj, k, int(value))
+                ctx.probe("tuning-constant-lowered")
+                ctx.log("knob", name, k, int(value))
+    if not originals:
+        return restore
+    # the same constants where they were bound as default argument values (`def f(x, max_size=MAX_WRITE_SAMPLES)`)
+    def functions_of(modname, modobj):
+        for _k, v in sorted(vars(modobj).items()):
+            if isinstance(v, _types.FunctionType) and v.__module__ == modname:
+                yield v
+            elif isinstance(v, type) and v.__module__ == modname:
+                for _k2, v2 in sorted(vars(v).items(), key=lambda kv: kv[0]):
+                    f = getattr(v2, "__func__", None) or getattr(v2, "fget", None) or v2
+                    if isinstance(f, _types.FunctionType):
+                        yield f
+
+    for name, modobj in mods:
+        for f in functions_of(name, modobj):
+            d = f.__defaults__
+            if d and any(type(x) is int and x in originals for x in d):
+                restore.append((f, "__defaults__", d))
+                f.__defaults__ = tuple(int(value) if (type(x) is int and x in originals) else x for x in d)
+                ctx.log("knob-default", name, f.__qualname__)
+            kd = f.__kwdefaults__
+            if kd and any(type(x) is int and x in originals for x in kd.values()):
+                restore.append((f, "__kwdefaults__", dict(kd)))
+                f.__kwdefaults__ = {k: (int(value) if (type(x) is int and x in originals) else x) for k, x in kd.items()}
+                ctx.log("knob-default", name, f.__qualname__)
+    return restore
 
 
 _HOME_CWD = os.getcwd()
